@@ -9,7 +9,7 @@ from ..values import SymBool, SymInt, tobool, toint
 from .. import loader, oracles
 from . import tok
 
-BOUNDS = {"quick": dict(N=5, N1=3, N2=4), "thorough": dict(N=8, N1=4, N2=6)}
+BOUNDS = {"quick": dict(N=5, N1=3, N2=3), "thorough": dict(N=8, N1=4, N2=6)}
 I = z3.Int
 
 
@@ -62,13 +62,17 @@ def history_harness(core, N1, N2, mode, with_init):
         f1 = [tok.Frame(i, SymBool(z3.Bool("u%d" % i))) for i in range(N1)]
         f2 = tok.sym_frames(N2)
         used = tok.make_tokenizer(core, P, mode, with_init)
-        how = e.choose(3)     # 0: complete list run, 1: generator consumed for j items then dropped, 2: generator closed
+        how = e.choose(4)     # 0: complete list run, 1: generator consumed for j items then dropped, 2: generator closed,
+        #                       3: both generators requested first, the earlier one consumed (j items) before the later one
         j = None
         try:
+            g2 = None
             if how == 0:
                 used.tokenize(tok.Src(f1))
             else:
                 g = used.tokenize(tok.Src(f1), generator=True)
+                if how == 3:
+                    g2 = used.tokenize(tok.Src(f2), generator=True)
                 j = e.choose(N1 + 1)
                 for _ in range(j):
                     try:
@@ -77,7 +81,7 @@ def history_harness(core, N1, N2, mode, with_init):
                         break
                 if how == 2:
                     g.close()
-            again = used.tokenize(tok.Src(f2))
+            again = list(g2) if g2 is not None else used.tokenize(tok.Src(f2))
             fresh = tok.make_tokenizer(core, P, mode, with_init).tokenize(tok.Src(f2))
         except Exception as ex:
             m = e.model()
@@ -106,10 +110,13 @@ def replay_fn(c):
     f2 = [oracles.CFrame(i, b) for i, b in enumerate(c["valid"])]
     used = mkt()
     try:
+        g2 = None
         if c["how"] == 0:
             used.tokenize(oracles.CSource(f1))
         else:
             g = used.tokenize(oracles.CSource(f1), generator=True)
+            if c["how"] == 3:
+                g2 = used.tokenize(oracles.CSource(f2), generator=True)
             for _ in range(c["consumed"] or 0):
                 try:
                     next(g)
@@ -119,13 +126,14 @@ def replay_fn(c):
                 g.close()
         def sig(toks):
             return [(s, e, ["2:%d" % f2.index(f) if any(f is g for g in f2) else "1:%d" % f.pos for f in d]) for d, s, e in toks]
-        again = sig(used.tokenize(oracles.CSource(f2)))
+        again = sig(list(g2) if g2 is not None else used.tokenize(oracles.CSource(f2)))
         fresh = sig(mkt().tokenize(oracles.CSource(f2)))
     except Exception as ex:
         return [("C20: reused tokenizer raises %s" % type(ex).__name__, "%s after first stream '%s': %s" % (tok.describe(c), tok.stream_str(c["first"]), ex))]
     if again == fresh:
         return []
-    hist = {0: "a complete run", 1: "a generator consumed for %s items and dropped" % c["consumed"], 2: "a generator consumed for %s items and closed" % c["consumed"]}[c["how"]]
+    hist = {0: "a complete run", 1: "a generator consumed for %s items and dropped" % c["consumed"], 2: "a generator consumed for %s items and closed" % c["consumed"],
+            3: "both generators requested up front and %s items of the earlier one consumed first" % c["consumed"]}[c["how"]]
     return [("C20: reused tokenizer differs from a fresh one", "%s after %s on '%s': reused %s, fresh %s" % (
         tok.describe(c), hist, tok.stream_str(c["first"]), again, fresh))]
 
